@@ -222,6 +222,11 @@ class DB:
 
     def insert(self, pkg, tags):
         # type: (str, Set[str]) -> None
+        # A package that is inserted again loses the tags it no longer has
+        for tag in self.db.get(pkg, set()) - tags:
+            self.rdb[tag].discard(pkg)
+            if not self.rdb[tag]:
+                del self.rdb[tag]
         self.db[pkg] = tags.copy()
         for tag in tags:
             if tag in self.rdb:
